@@ -1,5 +1,5 @@
 """Translator plugin (C01): constants, chunk formulas, type instantiation, stage order and the
-early-return sites of the hybrid attribution pipeline -> lean/IpaVerif/Generated/HybridConsts.lean.
+empty-shard branches of the hybrid attribution pipeline -> lean/IpaVerif/Generated/HybridConsts.lean.
 
 Sources: protocol/hybrid/{mod,oprf,agg,breakdown_reveal}.rs, protocol/ipa_prf/aggregation/mod.rs,
 protocol/context/dzkp_validator.rs, utils/power_of_two.rs, helpers/mod.rs, query/runner/hybrid.rs."""
@@ -190,20 +190,39 @@ def extract():
     if ok:
         record("hybrid.stage_order_breakdown", rel_b, br, re.search(r"pub async fn breakdown_reveal_aggregation<", br), inner_order)
 
-    # ---- early-return / ZeroRecords sites (known finding F8; F11 fix)
+    # ---- places where the code branches on an empty shard (finding F8, repaired; F11 fix): an empty shard
+    # must still enter the collective steps (shuffles, reshard by PRF, finalize); only a LONE shard may return early
     sites = []
     if need("hybrid.early.input_rows_empty", rel_m, hm,
-            r"if input_rows\.is_empty\(\) \{\s*return Ok\(vec!\[Replicated::ZERO; B\]\);\s*\}"):
-        sites.append("hybrid_protocol.input_rows_empty")
+            r"if input_rows\.is_empty\(\) && usize::from\(ctx\.shard_count\(\)\) == 1 \{\s*return Ok\(vec!\[Replicated::ZERO; B\]\);\s*\}"):
+        sites.append("hybrid_protocol.input_rows_empty_and_single_shard")
+    # no other return / `?`-free exit before the finalize step except through the stages
+    if body_m and len(re.findall(r"\breturn\b", body_m.group(1))) != 1:
+        fail("hybrid.early.single_return", "hybrid_protocol has an early return other than the single-shard empty-input one")
+    else:
+        record("hybrid.early.single_return", rel_m, hm, re.search(r"pub async fn hybrid_protocol<", hm), True)
     if need("hybrid.early.prf_total_records", rel, oprf,
-            r"let conv_records =\s*TotalRecords::specified\(div_round_up\(input_rows\.len\(\), Const::<CONV_CHUNK>\)\)\?;\s*let eval_records = TotalRecords::specified\(div_round_up\(input_rows\.len\(\), Const::<PRF_CHUNK>\)\)\?;"):
-        sites.append("compute_prf_and_reshard.total_records_specified")
+            r"\{\s*if input_rows\.is_empty\(\) \{\s*return reshard_try_stream\(\s*ctx\.narrow\(&HybridStep::ReshardByPrf\),\s*stream::empty\(\),\s*\|ctx, _, report: &PrfHybridReport<BK, V>\| report\.match_key % ctx\.shard_count\(\),\s*\)\s*\.await;\s*\}\s*let conv_records =\s*TotalRecords::specified\(div_round_up\(input_rows\.len\(\), Const::<CONV_CHUNK>\)\)\?;\s*let eval_records = TotalRecords::specified\(div_round_up\(input_rows\.len\(\), Const::<PRF_CHUNK>\)\)\?;"):
+        sites.append("compute_prf_and_reshard.empty_reshards_empty_stream")
     if need("hybrid.early.report_pairs_empty", rel_g, ag,
             r"let report_pairs = group_report_pairs_ordered\(reports\);\s*if report_pairs\.is_empty\(\) \{\s*return Ok\(Vec::new\(\)\);\s*\}"):
         sites.append("aggregate_reports.report_pairs_empty")
-    if need("hybrid.early.breakdown_empty", rel_b, br,
-            r"if attributed_values\.is_empty\(\) \{\s*return Ok\(BitDecomposed::new\(std::iter::repeat_n\(\s*Replicated::<Boolean, B>::ZERO,\s*usize::try_from\(HV::BITS\)\.unwrap\(\),\s*\)\)\);\s*\}"):
-        sites.append("breakdown_reveal_aggregation.attributed_values_empty")
+    # aggregate_reports contains no collective step (nothing sharded / no shard channel)
+    agm = re.search(r"pub async fn aggregate_reports<.*?\n\}\n", strip_comments(ag), re.S)
+    if not agm or re.search(r"shard_send_channel|shard_recv_channel|recv_from_shards|reshard_|sharded_shuffle|finalize\(", agm.group(0)):
+        fail("hybrid.early.aggregate_reports_local", "aggregate_reports not found or it now contains a cross-shard step")
+    else:
+        record("hybrid.early.aggregate_reports_local", rel_g, ag, re.search(r"pub async fn aggregate_reports<", ag), True)
+    # the emptiness check of breakdown_reveal_aggregation sits AFTER the collective shuffle and before the reveal
+    brs0 = strip_comments(br)
+    mb = re.search(r"\.sharded_shuffle\(attributed_values_padded\)\s*\.instrument\(info_span!\(\"shuffle_attribution_outputs\"\)\)\s*\.await\?;\s*if attributions\.is_empty\(\) \{\s*return Ok\(BitDecomposed::new\(std::iter::repeat_n\(\s*Replicated::<Boolean, B>::ZERO,\s*usize::try_from\(HV::BITS\)\.unwrap\(\),\s*\)\)\);\s*\}", brs0)
+    if not mb:
+        fail("hybrid.early.breakdown_empty", "emptiness check directly after the second shuffle not found in breakdown_reveal_aggregation")
+    elif re.search(r"attributed_values\.is_empty\(\)", brs0) or re.search(r"\breturn\b", brs0[:mb.start()].split("pub async fn breakdown_reveal_aggregation<")[-1]):
+        fail("hybrid.early.breakdown_empty", "breakdown_reveal_aggregation returns before its collective shuffle")
+    else:
+        record("hybrid.early.breakdown_empty", rel_b, br, re.search(r"if attributions\.is_empty\(\) \{", br), "after shuffle")
+        sites.append("breakdown_reveal_aggregation.attributions_empty_after_shuffle")
     rel_h = "helpers/mod.rs"
     hp = read(rel_h)
     need("hybrid.early.zero_records_error", rel_h, hp,
@@ -259,7 +278,7 @@ def extract():
         "def stageOrder : List String := [" + ", ".join(f'"{s}"' for s in order) + "]",
         "/-- stages of `breakdown_reveal_aggregation` in source order. -/",
         "def breakdownStageOrder : List String := [" + ", ".join(f'"{s}"' for s in inner_order) + "]",
-        "/-- sites at which a shard without rows / pairs leaves the collective protocol (finding F8) or returns early. -/",
+        "/-- places where the code branches on an empty shard (F8 repaired: none of them skips a collective step when there is more than one shard). -/",
         "def earlyReturnSites : List String := [" + ", ".join(f'"{s}"' for s in sites) + "]",
         "",
         "end IpaVerif.Generated.Hybrid",
